@@ -113,8 +113,9 @@ class World:
             ctx = hc
         self.have_listener = True
 
-    def udp_target(self, echo=2):
-        """target UDP socket: receives `echo` datagrams, answers each with a short datagram"""
+    def udp_target(self, echo=2, relay_port=2048):
+        """target UDP socket: receives `echo` datagrams, answers each with a short datagram sent
+        to the relay port"""
         P = self.P
         u = P.udp()
         P.do("top", "%s.new n2" % u); P.do("top", "%s.open v4" % u)
@@ -124,6 +125,9 @@ class World:
             h = P.h()
             P.do(ctx, "%s.recv h%d cap=2000" % (u, h))
             ctx = "h%d" % h
+            if self.rng.random() < 0.8:
+                body = [self.rng.randrange(256) for _ in range(self.rng.choice([1, 2, 30, 300, 1490, 1500]))]
+                P.do(ctx, "%s.send_to %s data=%s" % (u, ep(self.px_ip, relay_port), hx(body)))
         self.udp_tgt = u
         self.have_udp_target = True
         return u
@@ -426,13 +430,12 @@ def generate(seed, tier):
     rng = random.Random(seed * 7368787 + 17)
     out = []
     if tier == "quick":
-        nv, nm, nmu = 150, 110, 50
-        ac = all_cuts(rng, 4) + all_cuts(rng, 5)
-        fm = field_mutations(rng, 4) + field_mutations(rng, 5)
-        out += rng.sample(ac, min(len(ac), 40)) + rng.sample(fm, min(len(fm), 60))
-    else:
-        nv, nm, nmu = 6000, 5000, 2500
+        nv, nm, nmu = 700, 450, 250
         out += all_cuts(rng, 4) + all_cuts(rng, 5) + field_mutations(rng, 4) + field_mutations(rng, 5)
+    else:
+        nv, nm, nmu = 12000, 9000, 5000
+        for _ in range(4):
+            out += all_cuts(rng, 4) + all_cuts(rng, 5) + field_mutations(rng, 4) + field_mutations(rng, 5)
     for i in range(nv): out.append(scn_valid(rng, "v%d" % i))
     for i in range(nm): out.append(scn_malformed(rng, "m%d" % i))
     for i in range(nmu): out.append(scn_multi(rng, "x%d" % i))
